@@ -202,6 +202,15 @@ func writeEvidence(path, prop, tier string, cfg *PropConfig, reps []*FuncReport,
 		"not_decided": cfg.NotDecided, "engine_warnings": warnings, "engine_errors": res.EngineErrors,
 		"explanation": "contract-based deductive verification: weakest-precondition style symbolic execution of go/ssa of the functions listed, callees replaced by contracts, loops by invariants; each obligation raced on z3 4.8.12 / z3 5.1.0 / cvc5 1.0",
 	}
+	retried := []string{}
+	for _, r := range reps {
+		for _, o := range r.Obls {
+			if o.Retried {
+				retried = append(retried, fmt.Sprintf("%s -> %s", o.Name, o.Result))
+			}
+		}
+	}
+	cov["second_pass"] = map[string]interface{}{"rule": "an obligation no solver answered and at least one solver timed out on is tried once more with three times the time budget, two at a time (load robustness)", "obligations": retried}
 	vac := map[string]int{"checked": 0, "satisfiable": 0, "inconclusive_within_3s": 0, "contradictory": 0}
 	for _, r := range reps {
 		for _, o := range r.Obls {
